@@ -156,7 +156,7 @@ def _const(node):
 
 CLAUSE_KINDS = {'requires', 'ensures', 'raises', 'raises_nothing', 'modifies', 'decreases', 'invariant',
                 'variant', 'unroll', 'inline', 'fresh_result', 'reads', 'ghost', 'assume_type', 'loop_modifies',
-                'pure', 'ensures_on_raise', 'check', 'use_lemma', 'modifies_global', 'opaque'}
+                'pure', 'ensures_on_raise', 'check', 'use_lemma', 'modifies_global', 'opaque', 'returns'}
 
 
 def parse_contract_file(path):
@@ -231,6 +231,8 @@ def parse_contract_file(path):
                     if kind == 'loop_modifies':
                         extra['loop'] = _const(call.args[0])
                         extra['exprs'] = list(call.args[1:])
+                elif kind == 'returns':
+                    extra['type'] = _const(call.args[0])
                 elif kind == 'opaque':
                     extra['names'] = [_const(a) for a in call.args]
                 elif kind == 'modifies_global':
